@@ -1,10 +1,24 @@
 import LexVerif.Props.RoundNE
+import LexVerif.Proof.WriteBinaryBits
+import LexVerif.Spec.StdFloat
 /-!
 # C06 — power-of-two radix float output is exact and round-trips (property theorems)
 
 The judge used by the check evaluates each written output exactly and compares it with the float.
 The theorem below is what turns "exact" into "round-trips": any fraction denoting exactly the value of
 a finite float is rounded back to that float by the specification parser's conversion.
+
+Section "the writers": theorems about the Lean model of `binary.rs` / `hex.rs` (`Model/WriteBinary.lean`, tied to the
+code by the `wf` correspondence of `./check C06`, which compares the model's BYTES with the implementation's):
+* the integer helpers `calculate_shl`, `inverse_remainder`, `fast_ceildiv`, both `scale_sci_exp` are floor division /
+  modulus on every exponent a float can have;
+* `writeBinary_exact_digits_partial`: for EVERY finite f32/f64 (zero included, sign removed), radix 2/4/8/16/32, exponent base equal or one of
+  the documented mixed pairs, scientific and both positional notations, any break points, any `min_significant_digits`,
+  trim on/off: the laid-out digits (integer part, fraction part, explicit exponent) denote exactly the float's value;
+* `writeBinary_roundtrip_partial`: hence the fraction a parser reads from those digits rounds back to the same bits.
+`writeBinary_exact` (a `Prop`) is the byte-level statement; what separates it from the proved part is the inverse of
+`render` (digits → bytes → `Spec.parseStdComplete`), the sign and the specials; those are covered by
+the exact-value judge on every op and by the `example`s below.
 -/
 namespace LexVerif.Props.C06
 open LexVerif.Spec LexVerif.Proof.RoundNE LexVerif.Props.RoundNE
@@ -18,5 +32,89 @@ theorem exact_implies_roundtrip {f : Fmt} (hf : WF f) {b : Nat} (hb : b < f.infB
 theorem exact_implies_roundtrip_f64 {b : Nat} (hb : b < f64.infBits) (num : Nat) {den : Nat}
     (hd : 0 < den) (h : (num : ℚ) / den = valQ f64 b) : roundNE f64 num den = b :=
   roundNE_of_valQ wf_f64 hb num hd h
+
+/-! ## the writers -/
+section Writers
+open LexVerif.Model LexVerif.Model.WriteBinary LexVerif.Model.Dragonbox
+open LexVerif.Proof.WriteBinaryArith LexVerif.Proof.WriteBinaryExact LexVerif.Proof.WriteBinaryBits
+open LexVerif.Proof.DragonboxSpec
+
+/-- `calculate_shl(e, bits_per_digit) = e mod bits_per_digit` (non-negative modulus): `e - shl` is a digit boundary -/
+theorem calculate_shl_is_mod {e bpd : Int} (he1 : -4000 ≤ e) (he2 : e ≤ 4000) (h1 : 1 ≤ bpd) (h5 : bpd ≤ 5) :
+    calculateShl e bpd = e % bpd := calculateShl_eq he1 he2 h1 h5
+
+/-- `fast_ceildiv(v, b) = ⌈v / b⌉` for `v ≥ 0` -/
+theorem fast_ceildiv_is_ceil {v bpd : Int} (hv0 : 0 ≤ v) (hv : v ≤ 4000) (h1 : 1 ≤ bpd) (h5 : bpd ≤ 5) :
+    fastCeildiv v bpd = -((-v) / bpd) := fastCeildiv_eq hv0 hv h1 h5
+
+/-- `binary::scale_sci_exp` is floor division, also for negative scientific exponents -/
+theorem scale_sci_exp_is_floor {s bpd : Int} (hs1 : -4000 ≤ s) (hs2 : s ≤ 4000) (h1 : 1 ≤ bpd) (h5 : bpd ≤ 5) :
+    scaleSciExp s bpd = s / bpd := scaleSciExp_eq hs1 hs2 h1 h5
+
+/-- `hex::scale_sci_exp`: the exponent written in base `2^bpb` is worth exactly `⌊s / bpd⌋` digits of `2^bpd` -/
+theorem hex_scale_sci_exp_exact {s bpd bpb : Int} (hs1 : -4000 ≤ s) (hs2 : s ≤ 4000) (h1 : 1 ≤ bpd) (h5 : bpd ≤ 5)
+    (hb : bpb = 1 ∨ (bpb = 2 ∧ bpd = 4) ∨ bpb = bpd) :
+    scaleSciExpHex s bpd bpb * bpb = s / bpd * bpd := scaleSciExpHex_eq hs1 hs2 h1 h5 hb
+
+/-- PROVED PART 1 (digits): every finite float (sign removed; `+0.0` included), every power-of-two radix and documented base pair, all three
+layouts, any break points / `min_significant_digits` / trim: the digits denote exactly `valQ` -/
+theorem writeBinary_exact_digits_partial (fmt : Format) (o : WOpts) (t : FTy) {bits bpd bpb : Nat}
+    (hr : fmt.mantissaRadix = 2 ^ bpd) (hb : fmt.exponentBase = 2 ^ bpb) (hp : IsPair bpd bpb)
+    (hfin : bits < (fmtOf t).infBits) :
+    layoutQ (2 ^ bpd) (2 ^ bpb) (layoutBits fmt o t bits) = valQ (fmtOf t) bits :=
+  layoutBits_exact_all fmt o t hr hb hp hfin
+
+/-- PROVED PART 2 (round trip): the fraction `(num, den)` those digits denote — the one `Spec.litBits` rounds — is
+rounded by the exact `roundNE` to the bits that were written -/
+theorem writeBinary_roundtrip_partial (fmt : Format) (o : WOpts) (t : FTy) {bits bpd bpb : Nat}
+    (hr : fmt.mantissaRadix = 2 ^ bpd) (hb : fmt.exponentBase = 2 ^ bpb) (hp : IsPair bpd bpb)
+    (hfin : bits < (fmtOf t).infBits) :
+    roundNE (fmtOf t) (layoutFrac (2 ^ bpd) (2 ^ bpb) (layoutBits fmt o t bits)).1
+      (layoutFrac (2 ^ bpd) (2 ^ bpb) (layoutBits fmt o t bits)).2 = bits :=
+  layoutBits_roundtrip fmt o t hr hb hp hfin
+
+/-- the hypotheses are satisfiable for each of the ten (radix, base) pairs the writers accept -/
+example : IsPair 1 1 ∧ IsPair 2 2 ∧ IsPair 3 3 ∧ IsPair 4 4 ∧ IsPair 5 5 ∧ IsPair 2 1 ∧ IsPair 3 1 ∧ IsPair 4 1
+    ∧ IsPair 5 1 ∧ IsPair 4 2 := by unfold IsPair; decide
+
+/-- FULL STATEMENT (byte level; not proved in general): with default digit options, for every finite float the bytes
+the model writes are accepted by the complete specification parser of the same format, as a literal whose sign is the
+float's and whose exact value `(num, den)` rounds (exactly: is) the float. -/
+def writeBinary_exact : Prop :=
+  ∀ (fmt : Format) (feats : Features) (o : WOpts) (t : FTy) (bits bpd bpb : Nat),
+    fmt.mantissaRadix = 2 ^ bpd → fmt.exponentBase = 2 ^ bpb → IsPair bpd bpb → 2 ≤ fmt.exponentRadix →
+    fmt.exponentRadix ≤ 36 → fmt.flagBits = 12 → o.maxDigits = none → o.minDigits = none →
+    (digitVal (2 ^ bpd) o.exp).isNone → (digitVal (2 ^ bpd) o.dp).isNone → o.exp ≠ o.dp →
+    bits % (fmtOf t).signBit < (fmtOf t).infBits → bits < 2 ^ t.bits →
+    ∃ bytes l n, writeFloat fmt feats o t bits = some bytes
+      ∧ parseStdComplete (2 ^ bpd) fmt.exponentRadix { exp := o.exp, dp := o.dp, nan := o.nan, inf := o.inf } bytes
+          = .num l n
+      ∧ litBits (fmtOf t) (2 ^ bpd) (2 ^ bpb) l = bits
+
+/-! byte-level instances of the full statement, evaluated by the kernel (scientific, positional, negative, subnormal,
+zero; binary, hex-with-binary-exponent) -/
+def fmtOfRadix (r b er : Nat) : Format := ⟨12 + r * 2 ^ 104 + b * 2 ^ 112 + er * 2 ^ 120⟩
+def popts (o : WOpts) : POpts := { exp := o.exp, dp := o.dp, nan := o.nan, inf := o.inf }
+def roundTripsBytes (fmt : Format) (o : WOpts) (t : FTy) (bits : Nat) : Bool :=
+  match writeFloat fmt { powerOfTwo := true, radix := true } o t bits with
+  | some bytes =>
+    (match parseStdComplete fmt.mantissaRadix fmt.exponentRadix (popts o) bytes with
+     | .num l _ => litBits (fmtOf t) fmt.mantissaRadix fmt.exponentBase l == bits
+     | _ => false)
+  | none => false
+
+/-- 1.5 in hexadecimal is `1.8` -/
+example : writeFloat (fmtOfRadix 16 16 16) { powerOfTwo := true } { exp := 94 } .f64 0x3FF8000000000000
+    = some [49, 46, 56] := by decide +kernel
+/-- C-style hex float digits: 2^-1074 = `4.0p-1076` in radix 16 / base 2 / decimal exponent digits -/
+example : writeFloat (fmtOfRadix 16 2 10) { powerOfTwo := true } { exp := 112 } .f64 1
+    = some [52, 46, 48, 112, 45, 49, 48, 55, 54] := by decide +kernel
+example : ([0x3FF8000000000000, 1, 0x7FEFFFFFFFFFFFFF, 0x8000000000000000 + 0x4093480000000000, 0, 0x3F50624DD2F1A9FC,
+    0x000FFFFFFFFFFFFF, 0x0010000000000000].all fun b =>
+      [(2, 2, 2), (4, 4, 4), (8, 8, 8), (16, 16, 16), (32, 32, 32), (16, 2, 10), (4, 2, 10), (8, 2, 8), (32, 2, 2), (16, 4, 10)].all
+        fun (r, b', er) => roundTripsBytes (fmtOfRadix r b' er) { exp := if r > 25 then 94 else if r ≥ 15 then 112 else 101 } .f64 b)
+    = true := by decide +kernel
+
+end Writers
 
 end LexVerif.Props.C06
